@@ -85,11 +85,11 @@ Definition all_acts (m : node U) : list sexp := flat_map (acts_at m) (seq 0 (nro
 Definition init_node (m : node U) : rnode := mkRNode (all_acts m) (dec0_of m) DNone.
 
 (* what the section needs to know about a node: its rows are node rows; rows after the first carry an action (so that
-   they are merged through the node name); without node names (strip_uuids) it has one row *)
+   they are merged through the node name: RowSem.merge_actions); without node names (strip_uuids) it has one row *)
 Definition is_node_type (tp : str) : bool := negb (str_eqb tp t_go_to) && negb (str_eqb tp t_loose_exit).
 Definition runnable (m : node U) : Prop :=
   (forall j, (j < nrows m)%nat -> exists tp p, row_tp m j = Some (tp, p) /\ is_node_type tp = true)
-  /\ (forall j, (0 < j < nrows m)%nat -> acts_at m j <> [])
+  /\ (forall j, (0 < j < nrows m)%nat -> merge_actions (fst (fst (nk m j))) (acts_at m j) <> [])
   /\ (strip = true -> nrows m = 1%nat).
 
 Lemma node_row_tp m sn j es r : node_row U m sn j es r -> row_tp m j = Some (r_type r, r_pay r).
@@ -470,7 +470,7 @@ Proof.
                     Some (mkFS (update (fs_nodes s) k (mkRNode (acc ++ acts_at m j0) d DNone)) ((r_id r, (k, c)) :: fs_rowmap s) (fs_names s))).
     { unfold fstep. cbn [fabs_row fr_kind]. rewrite Hk. unfold merges. cbn [fabs_row fr_name]. rewrite Hnm, Hstrip.
       destruct (ustr (n_uuid m)) as [|c1 nm] eqn:Eu; [exfalso; apply (ustr_ne _ Eu)|].
-      destruct (acts_at m j0) as [|a0 al] eqn:Ea; [contradiction|]. rewrite Hname.
+      destruct (merge_actions (fst (fst (nk m j0))) (acts_at m j0)) as [|a0 al] eqn:Ea; [contradiction|]. rewrite Hname.
       unfold fstep_merge. cbn [fabs_row fr_edges fr_id]. rewrite Redges. cbn [map fabs_edge fe_cond fe_from chain_edge e_cond e_from].
       rewrite abs_cond_blank. cbn [negb fabs_from]. rewrite Hlook, Hnode, Nat.eqb_refl. cbn [rn_actions rn_dec rn_cont]. reflexivity. }
     rewrite Hstep.
@@ -606,10 +606,10 @@ Proof. rewrite (node_row_kind m sn 0 _ r0' (Hrun m Hm) ltac:(lia) r0'_row). refl
 Lemma r0'_name : abs_name U ustr strip r0' = if strip then [] else ustr u.
 Proof. apply (node_row_name m sn 0 _ r0' r0'_row). Qed.
 
-Lemma r0'_merges : merges s (fabs r0') a0 = None.
+Lemma r0'_merges : merges s (fabs r0') c a0 = None.
 Proof.
   unfold merges. cbn [fabs_row fr_name]. rewrite r0'_name. pose proof (ri_names _ _ Hinv) as Hn. destruct strip; [reflexivity|].
-  destruct (ustr u) as [|c1 nm] eqn:Eu; [reflexivity|]. destruct a0; [reflexivity|].
+  destruct (ustr u) as [|c1 nm] eqn:Eu; [reflexivity|]. destruct (merge_actions c a0); [reflexivity|].
   destruct (alookup (fs_names s) (c1 :: nm)) as [k'|] eqn:Ea; [|reflexivity]. exfalso.
   destruct Hn as [_ Hn]. destruct (Hn _ _ Ea) as (u' & Hu' & Eq). rewrite <- Eu in Eq. apply ustr_inj in Eq. subst u'. exact (u_not_first Hu').
 Qed.
